@@ -160,13 +160,16 @@ theorem Redis_expire_exact (s : RState) (h : RInv s) (T : Int) (ih : Bytes) (f :
         · intro e; cases e
         · intro ⟨e, ht⟩; cases e; exact absurd ht h
 
-/-- **D4 (known finding), as a theorem about the model**: `Redis_expire_exact` is about a collector pass
-that runs without anything in between. The pass is several round trips per swarm key; when an announce
+/-- **D4 (repaired in /repo, `fix:` commit c71408d), as a theorem about the collector as it was**:
+`Redis_expire_exact` is about a collector pass that runs without anything in between. The pass was
+several round trips per swarm key, the read and the removal being different ones; when an announce
 of the same peer lands between the collector's read (`gcKeyRead`: HGETALL and the decision what is
 stale) and its removal (`gcKeyApply`: HDEL of those fields, whatever their current value), a peer whose
 most recent announce is *after* the cutoff is removed. Concrete witness (replayed on the real store by
 the harness scenario `st.redis_gc_race`, see known_findings.json): put at 5, collector reads with
-cutoff 6, re-announce at 10, collector applies. -/
+cutoff 6, re-announce at 10, collector applies. The repaired collector WATCHes the hash while it reads
+and removes in one `MULTI … EXEC`: a removal that goes through acts on the hash it has read
+(`D4_repaired_commit`), which makes it an atomic step of `Props/RedisConc.lean`. -/
 theorem D4_gc_race_witness :
     let ih : Bytes := List.replicate 20 1
     let p : Peer := ⟨List.replicate 20 2, 6881, [10, 0, 0, 1], .v4⟩
@@ -177,24 +180,36 @@ theorem D4_gc_race_witness :
     AMap.get (view s1 ih .v4).seeders (peerKey p) = some 10 ∧ (view s2 ih .v4).seeders = [] := by
   decide
 
-/-- C17 (Redis): in every reachable state the exported totals are (registered seeder sets, stored
-seeder memberships, stored leecher memberships), summed over the two families — as integers, so
-they are never negative -/
-theorem Redis_totals (ops : List Op) :
-    let s := ops.foldl apply {}
+/-- the repaired collector: when the hash has not changed between the read and the `EXEC` (the only
+case in which Redis lets the `EXEC` go through), removing what was decided at the read is the atomic
+`gcHash` of the state at the `EXEC` — whatever else has happened to other keys and to the counters -/
+theorem D4_repaired_commit (sRead sExec : RState) (f : Fam) (k : Bytes) (cutoff : Int)
+    (hunchanged : hget sExec k = hget sRead k) :
+    gcHashApply sExec f k (gcKeyRead sRead k cutoff) = gcHash sExec f k cutoff := by
+  simp only [gcHash, gcKeyRead, hunchanged]
+
+/-- C17 (Redis): in every state satisfying the invariant the exported totals are (registered seeder
+sets, stored seeder memberships, stored leecher memberships), summed over the two families — as
+integers, so they are never negative -/
+theorem totals_of_inv (s : RState) (h : RInv s) :
     totals s = (((sumW wSeed s.idx4 + sumW wSeed s.idx6 : Nat) : Int),
                 ((sumW (wLen .v4 true) s.hashes + sumW (wLen .v6 true) s.hashes : Nat) : Int),
                 ((sumW (wLen .v4 false) s.hashes + sumW (wLen .v6 false) s.hashes : Nat) : Int)) := by
-  intro s
-  have h := Redis_reachable ops
   have c4 := h.cih .v4; have c6 := h.cih .v6
   have s4 := h.cnt .v4 true; have s6 := h.cnt .v6 true
   have l4 := h.cnt .v4 false; have l6 := h.cnt .v6 false
   simp only [getC, roleKind, idx, if_true, Bool.false_eq_true, if_false] at c4 c6 s4 s6 l4 l6
   show (s.c.ih4 + s.c.ih6, s.c.s4 + s.c.s6, s.c.l4 + s.c.l6) = _
   simp only [Int.natCast_add]
-  show ((List.foldl apply {} ops).c.ih4 + _, (List.foldl apply {} ops).c.s4 + _, (List.foldl apply {} ops).c.l4 + _) = _
   rw [c4, c6, s4, s6, l4, l6]
+
+/-- … in particular in every reachable state -/
+theorem Redis_totals (ops : List Op) :
+    let s := ops.foldl apply {}
+    totals s = (((sumW wSeed s.idx4 + sumW wSeed s.idx6 : Nat) : Int),
+                ((sumW (wLen .v4 true) s.hashes + sumW (wLen .v6 true) s.hashes : Nat) : Int),
+                ((sumW (wLen .v4 false) s.hashes + sumW (wLen .v6 false) s.hashes : Nat) : Int)) :=
+  totals_of_inv _ (Redis_reachable ops)
 
 /-- the weight used for the seeder/leecher totals really is "number of entries of the swarm hashes
 of that family and role" -/
